@@ -75,6 +75,8 @@ def op_bytes(op, tag=b'a'):
     if k == 'copy':
         _, i, move, byuid, s, dest, _pick = op
         return tag + (b' UID' if byuid else b'') + (b' MOVE ' if move else b' COPY ') + s.encode() + b' ' + BOXES[dest] + b'\r\n'
+    if k == 'status':
+        return tag + b' STATUS ' + BOXES[op[2]] + b' (MESSAGES UIDNEXT UNSEEN)\r\n'
     if k == 'search':
         _, i, byuid, seqs, uids, tests = op
         parts = []
@@ -117,6 +119,8 @@ def op_model(op):
     if k == 'copy':
         _, i, move, byuid, s, dest, pick = op
         return f'srv copy {i} {int(move)} {int(byuid)} {gen.seqset_model(s)} {dest} {pick}'
+    if k == 'status':
+        return f'srv status {op[1]} {op[2]}'
     if k == 'search':
         _, i, byuid, seqs, uids, tests = op
         t = ';'.join(f'{f}:{int(e)}' for f, e in tests) or '-'
@@ -176,6 +180,9 @@ def canon_real(raw):
                 items.append(('SEARCH', tuple(int(t.val) for t in r[2:])))
             elif a1 == b'BYE':
                 items.append(('BYE',))
+            elif a1 == b'STATUS' and len(r) > 3 and isinstance(r[3], list):
+                d = {imapresp.atom(r[3][k]): int(r[3][k + 1].val) for k in range(0, len(r[3]) - 1, 2)}
+                code = f"STATUS messages={d.get(b'MESSAGES')} uidnext={d.get(b'UIDNEXT')} unseen={d.get(b'UNSEEN')}"
             elif a1 == b'OK' and a2 and a2.startswith(b'['):
                 m = re.match(rb'\[UIDNEXT (\d+)\]', a2)
                 if m:
@@ -284,7 +291,9 @@ class Real:
             f = imapresp.fetch_items(r)
             if f:
                 d = f[1]
-                fl, _ = canon_flags(d[b'FLAGS'])
+                fl, rec = canon_flags(d[b'FLAGS'])
+                if rec:                 # an EXAMINE probe never owns \\Recent: it can only see one that was stored as a permanent flag
+                    fl = tuple(sorted(fl + (9,)))
                 day = int(d[b'INTERNALDATE'].val[:2])
                 out.append((int(d[b'UID'].val), fl, cid_of_size(int(d[b'RFC822.SIZE'].val), lf=self.kind != 'dict'), day))
         await c.send(b'p LOGOUT\r\n')
@@ -355,6 +364,10 @@ async def run_real(nsess, program, subsystem=None, dumps=True, backend='dict', d
                     for p, nraw in probes:
                         ext.append(p)
                         outs.append(nraw)
+                    if dump_each is not None:
+                        d = [await real.dump(b) for b in range(3)]      # the probes are flag fetches: they change nothing
+                        while len(dump_each) < len(ext):
+                            dump_each.append(d)
                     continue
                 op[-1] = cands[0] if cands else 0
                 ext.append(op)
@@ -410,7 +423,7 @@ def run_model(cases):
 # ---------------------------------------------------------------- generator
 def gen_program(r, nsess, length, profile, uid_base=100):
     """profile: dict of op weights and switches"""
-    w = dict(select=6, close=2, noop=10, check=2, append=14, store=18, fetch=10, expunge=8, uidexpunge=3, copy=6, move=4, search=5)
+    w = dict(select=6, close=2, noop=10, check=2, append=14, store=18, fetch=10, expunge=8, uidexpunge=3, copy=6, move=4, search=5, status=0)
     w.update(profile.get('weights', {}))
     kinds = list(w)
     weights = [w[k] for k in kinds]
@@ -438,6 +451,8 @@ def gen_program(r, nsess, length, profile, uid_base=100):
             prog.append(['close', i])
         elif k in ('noop', 'check'):
             prog.append([k, i])
+        elif k == 'status':
+            prog.append(['status', i, r.choice([0, 1, 2, 3, box])])
         elif k == 'append':
             b = box if r.random() < 0.8 else r.choice([0, 1, 2, 3])
             prog.append(['append', i, b, gen_flags(r, profile), cid, r.randint(0, 5), 0])
@@ -498,13 +513,26 @@ class ShadowClient:
         self.errors = []
         self.told_recent = []     # uids (or positions) this session was told are \\Recent: list of (box, uid-or-None, position)
 
+    def archive(self):
+        if self.msgs is not None:
+            if not hasattr(self, 'history'):
+                self.history = []
+            self.history.append(dict(box=self.box, ro=self.ro, epoch=self.epoch,
+                                     seen=list(zip(self.msgs, self.rec)) + list(self.gone)))
+
     def on_select(self, exists, box=None, ro=False):
+        self.archive()
         self.msgs = [None] * exists
         self.flags = [None] * exists
+        self.rec = [False] * exists       # was this position ever reported with \\Recent in this selection
         self.box = box
         self.ro = ro
+        self.epoch = getattr(self, 'epoch', 0) + 1
+        self.recent_count = None          # last RECENT n received
+        self.gone = []                    # (uid-or-None, ever told recent) of positions removed by EXPUNGE
 
     def on_close(self):
+        self.archive()
         self.msgs = None
         self.flags = None
         self.box = None
@@ -548,14 +576,19 @@ class ShadowClient:
                 if not (1 <= n <= len(self.msgs)):
                     self.errors.append(f'EXPUNGE {n} outside 1..{len(self.msgs)} (op {op})')
                 else:
+                    self.gone.append((self.msgs[n - 1], self.rec[n - 1]))
                     del self.msgs[n - 1]
                     del self.flags[n - 1]
+                    del self.rec[n - 1]
+            elif it[0] == 'RECENT':
+                self.recent_count = it[1]
             elif it[0] == 'EXISTS':
                 n = it[1]
                 if n < len(self.msgs):
                     self.errors.append(f'EXISTS {n} shrinks the mailbox from {len(self.msgs)} (op {op})')
                 else:
                     self.flags += [None] * (n - len(self.msgs))
+                    self.rec += [False] * (n - len(self.msgs))
                     self.msgs += [None] * (n - len(self.msgs))
             elif it[0] == 'FETCH':
                 _, n, fl, rec, uid = it
@@ -569,6 +602,8 @@ class ShadowClient:
                             self.errors.append(f'FETCH {n} labelled UID {uid} but the client holds UID {self.msgs[n - 1]} at {n} (op {op})')
                     if fl is not None:
                         self.flags[n - 1] = (fl, rec)
+                        if rec:
+                            self.rec[n - 1] = True
             elif it[0] == 'SEARCH' and op[0] == 'search' and not op[2]:
                 for n in it[1]:
                     if not (1 <= n <= len(self.msgs)):
@@ -611,6 +646,8 @@ def analyse(nsess, ext, outs):
             if status == 'OK':
                 ex = [it[1] for it in items if it[0] == 'EXISTS']
                 sh.on_select(ex[-1] if ex else 0, box=op[2], ro=bool(op[3]))
+                rc = [it[1] for it in items if it[0] == 'RECENT']
+                sh.recent_count = rc[-1] if rc else None
             else:
                 sh.on_close()
             continue
